@@ -179,6 +179,7 @@ def record_rule(ctx, crate):
     repeat = False
     # String locals some callee may rewrite in place (`!!` expansion takes `&mut line`)
     rewritten = set()
+    rewrites = []          # (call block, String local handed out by &mut)
     for bb, t, c in m.calls():
         for a in t["args"]:
             pl = a.get("move") or a.get("copy")
@@ -186,6 +187,31 @@ def record_rule(ctx, crate):
                 r = mir.root_local_expr(m.expand_vars(strip_sites(m.operand_expr(a))))
                 if r is not None:
                     rewritten.add(r)
+                    rewrites.append((bb, r))
+    # a field that is assigned from such a String AFTER the rewriting call holds the rewritten text too
+    back = set(m.back_edges())
+
+    def after(src, dst):
+        seen, todo = set(), [y for y in m.succs[src] if (src, y) not in back]
+        while todo:
+            x = todo.pop()
+            if x == dst:
+                return True
+            if x not in seen:
+                seen.add(x)
+                todo.extend(y for y in m.succs[x] if (x, y) not in back)
+        return False
+    stale_fields = set()
+    for bi, si, st in m.stmts():
+        if st["k"] != "assign" or not st["place"]["p"]:
+            continue
+        fld_names = [x.get("name") for x in st["place"]["p"] if isinstance(x, dict) and "f" in x]
+        if not fld_names:
+            continue
+        rhs_root = mir.root_local_expr(m.expand_vars(strip_sites(m.rvalue_expr(st["rv"]))))
+        for wb, r in rewrites:
+            if rhs_root == r and after(wb, bi):
+                stale_fields.add(fld_names[-1])
     typed = None
     for a, v in facts:
         ea = m.expand_vars(a)
@@ -194,6 +220,11 @@ def record_rule(ctx, crate):
             space = True
             r = mir.root_local_expr(ea[2][0])
             typed = r is not None and r not in rewritten
+            recv = mir.peel(strip_sites(ea[2][0]))
+            while recv[0] == "call" and recv[2]:
+                recv = mir.peel(recv[2][0])
+            if recv[0] == "field" and mir.field_name(recv) in stale_fields:
+                typed = False
         if ea[0] == "call" and last_seg(ea[1]) in ("ne", "eq") and any(flow.is_field_named(s, "previous_cmd") for s in mir.subexprs(ea)):
             if (last_seg(ea[1]) == "ne") == bool(v):
                 repeat = True
